@@ -86,6 +86,8 @@ def synth(rng, tier="quick", route=None, **force):
     route = route or rng.choice(["yaml", "dict"])
     nsub = force.get("nsub") or rng.randint(1, 6 if big else 4)
     sizes = [rng.randint(1, 4 if big else 3) for _ in range(nsub)]
+    if force.get("wide"):
+        sizes = [rng.randint(3, 8) for _ in range(nsub)]
     if force.get("max_hosts"):
         while sum(sizes) > force["max_hosts"]:
             i = rng.randrange(nsub)
@@ -203,6 +205,27 @@ def synth(rng, tier="quick", route=None, **force):
                     firewall[(a, b)] = _rule(rng, srvs)
     if rng.random() < force.get("live", 0.75):
         _liven(rng, nsub, topo, exploits, hosts, firewall, sizes)
+    if rng.random() < (0.3 if nsub >= 3 else 0.1):
+        # a rule for a pair of subnets that the topology does not connect:
+        # accepted by the loader, but no traffic may flow along it
+        pairs = [(a, b) for a in range(1, N) for b in range(1, N)
+                 if a != b and topo[a][b] == 0]
+        for a, b in rng.sample(pairs, min(len(pairs), 2)):
+            firewall[(a, b)] = list(srvs)
+            # ... while the subnets that really are connected to b block one
+            # exploitable service that a host of b runs
+            usable = [e for e in exploits.values() if e["prob"] > 0]
+            if usable and rng.random() < 0.7:
+                e = rng.choice(usable)
+                for c in range(1, N):
+                    if c != b and topo[c][b] == 1 and \
+                            e["service"] in firewall[(c, b)]:
+                        firewall[(c, b)].remove(e["service"])
+                h = hosts[(b, rng.randrange(sizes[b - 1]))]
+                if e["service"] not in h["services"]:
+                    h["services"].append(e["service"])
+                if e["os"] is not None:
+                    h["os"] = e["os"]
     bounds = None
     if route == "dict" and rng.random() < 0.3:
         bounds = (N + rng.randint(0, 3), max(sizes) + rng.randint(0, 3))
@@ -227,6 +250,12 @@ def ring(rng, route=None):
     return synth(rng, "quick", route=route, nsub=rng.randint(5, 7),
                  max_hosts=rng.randint(7, 10), ring=True, live=1.0,
                  connected=True)
+
+
+def wide(rng, route=None):
+    """Few subnets with many hosts each (host index >= number of subnets)."""
+    n = rng.randint(1, 3)
+    return synth(rng, "quick", route=route, nsub=n, wide=True, live=1.0)
 
 
 def micro(rng, route=None):
